@@ -230,6 +230,8 @@ namespace {
         else if (count == 2 && index == 2 &&
                  post_has_simple_amount(*post) &&
                  post_has_simple_amount(*(*xact.posts.begin())) &&
+                 post->must_balance() &&
+                 (*xact.posts.begin())->must_balance() &&
                  ((*xact.posts.begin())->amount.commodity() ==
                   post->amount.commodity())) {
           // If there are two postings and they both simple amount, and
